@@ -499,6 +499,22 @@ pub fn structural(ctx: &Ctx, st: &mut Stats) {
             }
         }
     }
+    // long literals: beyond any 16-bit / 32 Ki threshold (C07)
+    if prop == "C07" {
+        for k in (ctx.shard..24).step_by(ctx.nshards) {
+            let len = [20_000usize, 33_000, 66_000, 140_000][k % 4];
+            let s = match k / 4 {
+                0 => format!("x='{}'x;", "41".repeat(len / 2)),
+                1 => format!("x=\"{}\"x;", "4a,".repeat(len / 3) + "4b"),
+                2 => format!("x='{}''{}';", "a".repeat(len), "b".repeat(7)),
+                3 => format!("x=\"{}\"\"{}\";", "é".repeat(len / 2), "b"),
+                4 => format!("%let a=%str({}%%{});", "a".repeat(len), "b".repeat(len / 3)),
+                _ => format!("x=\"&v.{}\"\"{}\"d;", "q".repeat(len), "r"),
+            };
+            structural_one(prop, st, &s, Src::Family);
+            st.count("long_literal_inputs", 1);
+        }
+    }
     // ground truth for generated literals (C07)
     if prop == "C07" {
         let progs = ctx.draws(30_000, 600_000);
@@ -721,7 +737,17 @@ pub fn c12_one(st: &mut Stats, p: &grammar::Prog) {
     st.cases += 1;
     let ex = exec(&p.s);
     st.observe_exec(&ex);
-    let Some(res) = ex.result() else { return };
+    let Some(res) = ex.result() else {
+        // a well-formed program must lex to a result (C01 says every input does; for generated
+        // well-formed programs the missing result is also a C12 failure)
+        let cls = match &ex.outcome {
+            Outcome::Panic(pn) => format!("panic|{}", pn.frames.first().cloned().unwrap_or_default()),
+            Outcome::Budget(b) => format!("budget|{}", b.counter),
+            _ => "refused".to_string(),
+        };
+        st.violation(&Finding::new("C12.no-result", &cls, "a well-formed program did not lex to a result".into()), &[&p.s]);
+        return;
+    };
     let v = View::new(&p.s, res);
     st.observe_view(&v);
     let fs = wellformed::check_c12(p, &ex);
